@@ -61,7 +61,8 @@
 //     Lean definition (`o<k>_<callee>`, one per call site, in order of
 //     appearance) and, when "trace" is set, the definition also returns the
 //     list of opaque calls reached, in order, each with the values of its
-//     arguments of scalar type — so "which external effects happen, in which
+//     arguments of scalar type (with "trace_qual" the callee is recorded with
+//     its last qualifier, `Ratelimiter.Check` rather than `Check`) — so "which external effects happen, in which
 //     order and with which arguments" is part of the translated meaning; calls
 //     listed under "pure" are opaque values that are not traced; a call to a
 //     translated function that itself has opaque parameters is opaque too;
@@ -107,6 +108,10 @@ type TrFunc struct {
 	Ignore []string `json:"ignore,omitempty"`
 	// Trace makes the definition return the list of opaque calls reached.
 	Trace bool `json:"trace,omitempty"`
+	// TraceQual records a traced call as "x.Method" (the last two components
+	// of the printed callee: field or variable, then method) instead of
+	// "Method", to tell `prof.Ratelimiter.Check` from `mw.limiter.Check`.
+	TraceQual bool `json:"trace_qual,omitempty"`
 	// RecvNonNil models the pointer receiver as the struct itself: callers
 	// are assumed never to pass nil (stated where it is used).
 	RecvNonNil bool `json:"recv_nonnil,omitempty"`
@@ -1070,7 +1075,11 @@ func (c *fctx) traceEntry(x *ast.CallExpr) string {
 	for _, a := range x.Args {
 		args = append(args, c.traceArg(a))
 	}
-	return fmt.Sprintf("(%q, [%s])", lastName(c.show(x.Fun)), strings.Join(args, ", "))
+	name := lastName(c.show(x.Fun))
+	if parts := strings.Split(c.show(x.Fun), "."); c.spec.TraceQual && len(parts) >= 2 {
+		name = strings.Join(parts[len(parts)-2:], ".")
+	}
+	return fmt.Sprintf("(%q, [%s])", name, strings.Join(args, ", "))
 }
 
 func (c *fctx) traceArg(a ast.Expr) (code string) {
